@@ -488,7 +488,10 @@ func (H) Execute(x *common.Exec, s any) {
 	oldB, oldM, oldR := manager.RetryBaseDelay, manager.RetryMaxDelay, manager.RetryRandomization
 	manager.RetryBaseDelay, manager.RetryMaxDelay, manager.RetryRandomization = time.Second, 4*time.Second, 0
 	oldNow, oldLat := cache.Now, latency.Now
+	oldCR := client.RetryRandomization
+	client.RetryRandomization = 0 // back-off jitter draws from the process-global math/rand
 	defer func() {
+		client.RetryRandomization = oldCR
 		manager.RetryBaseDelay, manager.RetryMaxDelay, manager.RetryRandomization = oldB, oldM, oldR
 		cache.Now, latency.Now = oldNow, oldLat
 	}()
